@@ -186,4 +186,24 @@ example :
     let r3 := tick cfg 25000 known [5, 6] 0 [] r2.1
     r1.2 = [(2, 0), (6, 0)] ∧ r2.2 = [] ∧ r3.2 = [(2, 1)] := by decide
 
+
+/-- **The tick model is the translation of the source.** The eligibility predicate of the model is the
+conjunction of exactly the clauses the translator read off `handle_connectivity_check` (High affinity,
+not self, has an address, not connected, no pending background dial, strictly past its backoff); the dial
+budget subtracts the number of connections being established (background or not); and the shapes the
+other theorems rely on were recognised on this run: address index = attempts mod number of addresses, a
+noticed success clears the backoff state, a noticed failure updates it with (now, step, max) in that
+order, `DialBackoffState::{new, update}` compute `now + min(max, step * attempts)`, and the check is
+driven by a fixed-period `interval` (not by a timer that other events restart). -/
+theorem C13_tick_is_translated :
+    (∀ cfg now connected st k, eligibleGen cfg now connected st k = eligible cfg now connected st k) ∧
+    (∀ cap pc pd, budgetGen cap pc pd = cap - pc) ∧
+    Gen.addressRotationGen = true ∧ Gen.successClearsBackoffGen = true ∧ Gen.failureUpdatesBackoffGen = true ∧
+    Gen.backoffFormulaGen = true ∧ Gen.fixedPeriodTickGen = true := by
+  refine ⟨?_, ?_, rfl, rfl, rfl, rfl, rfl⟩
+  · intro cfg now connected st k
+    simp [eligibleGen, Gen.eligibleClausesGen, evalEligClause, eligible, Bool.and_assoc]
+  · intro cap pc pd
+    simp [budgetGen, Gen.budgetMinusGen]
+
 end Anemo
